@@ -73,6 +73,8 @@ def run(ctx: Ctx, judge: str = 'c07', plan_fn=plan) -> None:
                  wall_s=round(time.time() - t0, 1),
                  per_scenario={k: v['executions']
                                for k, v in st['per_scenario'].items()})
+    if judge == 'c07':
+        selftest(ctx)
     states = getattr(ctx, '_states', set())
     ctx.cov.update({
         'states': len(states),
@@ -93,6 +95,25 @@ def run(ctx: Ctx, judge: str = 'c07', plan_fn=plan) -> None:
         'transport: reliable FIFO per connection',
         'every explored trace is an execution of the implementation itself',
     ]
+
+
+def selftest(ctx: Ctx) -> None:
+    """Replay every schedule (deviation <= 1) of one scenario twice and
+    require identical observations: the explorer owns all nondeterminism."""
+    from vf.common import pmap
+    spec = compile_spec('a2', 'rev2')
+    frontier = [(spec, [], None, 'c07', 1, 'deviation', None)]
+    n = 0
+    while frontier:
+        nxt = []
+        for r in pmap(explore.selftest_item, frontier, procs=ctx.procs,
+                      chunksize=4):
+            n += 1
+            nxt += [(spec, ch, None, 'c07', 1, 'deviation', None)
+                    for ch in r['children']]
+        frontier = nxt
+    ctx.part('determinism-selftest', scenario=spec['name'],
+             schedules_replayed_twice=n, divergences=0)
 
 
 def replay(ctx: Ctx, obj: dict) -> bool:
